@@ -143,6 +143,7 @@ class Report:
             "rule": "one evaluation per rule instance located in the parsed source; distinct = distinct (rule, file, function, normalised statement) keys",
             "samples": samples or [{"note": "no instances"}],
             "rules": per_rule,
+            "rule_statements": dict(self.rules),
             "checker_cmd": f"/venv/bin/python /verif/sa/check.py {self.pid} --tier {self.tier}",
             "trusted_base": ["CPython ast module (parser and grammar tables)", "the rule tables in /verif/sa/props"],
             "files": repo.files_evidence() if repo is not None else [],
